@@ -67,7 +67,7 @@ func runLBAcct(x *X) {
 
 	// (statuses Helios also produces itself -- 429, 503, 401 -- when they come from the backend are
 	// proxied answers: counted once, in the class of their status)
-	classes := []string{"ok", "s404", "s500", "unreach", "abort", "client-gone", "s204", "s429", "s503", "s401"}
+	classes := []string{"ok", "s404", "s500", "unreach", "abort", "client-gone", "s204", "s429", "s503", "s401", "client-gone-early"}
 	var steps []string
 	clientGone := func(spec reqSpec) {
 		// the client disconnects while the backend is still working: the request
@@ -100,6 +100,9 @@ func runLBAcct(x *X) {
 		switch class {
 		case "client-gone":
 			clientGone(reqSpec{client: client, plan: &reqPlan{delay: 2 * time.Second}})
+		case "client-gone-early":
+			// the client has hung up before the balancer even looks at the request
+			h.do(reqSpec{client: client, preCancelled: true})
 		default:
 			mode := class
 			h.do(reqSpec{client: client, plan: &reqPlan{mode: mode}})
@@ -113,7 +116,7 @@ func runLBAcct(x *X) {
 			x.Fault("backend-unreachable")
 		case "abort":
 			x.Fault("backend-abort-mid-body")
-		case "client-gone":
+		case "client-gone", "client-gone-early":
 			x.Fault("client-disconnect")
 		}
 	}
